@@ -58,6 +58,11 @@ def run(chk):
     # ---------------- (b) real GQR runs replayed by the model from their own norms, (c) the counts
     for _ in range(500 if thorough else 110):
         B, n, m, N, L, s = R.gen_region_case(rng, *((12, 7) if thorough else (9, 5)))
+        if rng.random() < 0.3:
+            # numerically rank-deficient basis (rank < N possible): residuals become rounding-level; the counts are then outside
+            # the property's feasibility clause, but SSPOR must still hand back GQR's own first N sensors
+            r0 = int(rng.integers(1, m + 1))
+            B = (rng.integers(-8, 9, size=(n, r0)) / 4.0) @ (rng.integers(-8, 9, size=(r0, m)) / 3.0)
         A = [int(i) for i in QR().fit(B).get_sensors()]
         k = min(n, m)
         for opt in ("max_n", "exact_n", "predetermined"):
@@ -72,29 +77,29 @@ def run(chk):
             nontriv = piv[:N] != A[:N]
             chk.case(case, nontrivial=nontriv)
             chk.count("gqr:" + opt)
-            if zero_residual:
+            ctx = {**case, "observed": piv}
+            tiny = any(min(st["dlens"]) < 1e-9 * max(1e-300, max(steps[0]["dlens"])) for st in steps[:N])
+            if zero_residual or tiny:
                 chk.count("ZERO-RESIDUAL-SKIP")
             else:
-                ctx = {**case, "observed": piv}
                 if opt == "max_n" and len(inreg) > s:
                     chk.violation("impl", "max_n-count", f"max_n: {len(inreg)} region sensors among the first {N} (allowance {s}): {piv[:N]}", ctx)
                 if opt == "exact_n" and len(inreg) != s:
                     chk.violation("impl", "exact_n-count", f"exact_n: {len(inreg)} region sensors among the first {N} (required {s}): {piv[:N]}", ctx)
                 if opt == "predetermined" and (any(c in L for c in piv[:N - s]) or any(c not in L for c in piv[N - s:N])):
                     chk.violation("impl", "predetermined-split", f"predetermined: first {N - s} must be outside and the next {s} inside the set: {piv[:N]}", ctx)
-                # the same through SSPOR (keywords forwarded; N lies below the shuffled tail)
-                try:
-                    mdl = SSPOR(optimizer=GQR(), n_sensors=N)
-                    from pysensors.basis import Identity
-                    mdl = SSPOR(basis=Identity(n_basis_modes=m), optimizer=GQR(), n_sensors=N)
-                    impl.quiet(mdl.fit, B.T.copy(), quiet=True, seed=3, idx_constrained=np.array(L, dtype=int), n_sensors=N, n_const_sensors=s,
-                               all_sensors=np.array(A, dtype=int), constraint_option=opt)
-                    sel = [int(i) for i in mdl.selected_sensors]
-                    if sel != piv[:N]:
-                        chk.violation("impl", "sspor-gqr-differs", f"SSPOR(GQR) selected {sel}, GQR alone ranks {piv[:N]} first", ctx)
-                    chk.count("sspor_checked")
-                except Exception as e:
-                    chk.violation("impl", "sspor-gqr-raises", f"SSPOR(optimizer=GQR()).fit(**kws) raised {type(e).__name__}: {e}", ctx)
+            # the same through SSPOR (keywords forwarded; N lies below the shuffled tail) - also for degenerate matrices
+            try:
+                from pysensors.basis import Identity
+                mdl = SSPOR(basis=Identity(n_basis_modes=m), optimizer=GQR(), n_sensors=N)
+                impl.quiet(mdl.fit, B.T.copy(), quiet=True, seed=3, idx_constrained=np.array(L, dtype=int), n_sensors=N, n_const_sensors=s,
+                           all_sensors=np.array(A, dtype=int), constraint_option=opt)
+                sel = [int(i) for i in mdl.selected_sensors]
+                if sel != piv[:N]:
+                    chk.violation("impl", "sspor-gqr-differs", f"SSPOR(GQR) selected {sel}, GQR alone ranks {piv[:N]} first", ctx)
+                chk.count("sspor_checked")
+            except Exception as e:
+                chk.violation("impl", "sspor-gqr-raises", f"SSPOR(optimizer=GQR()).fit(**kws) raised {type(e).__name__}: {e}", ctx)
             table = R.table_from_steps(steps, n)
             tq = "[" + "; ".join(C.czlist(r) for r in table) + "]"
             exprs.append(f"gqr_pivots {R.OPT[opt]} {R.coq_settings(L, A, N, s)} {n} {k} {tq}")
